@@ -40,6 +40,15 @@ func (l *Lexer) newTwoCharToken(tokenType token.Type) token.Token {
 	return l.NewTokenAt(tokenType, string(ch)+string(l.CurrentChar), startLine, startColumn)
 }
 
+// newStringToken builds the token for a scanned string literal. A literal cut
+// short by the end of the input is not a string: it becomes an ILLEGAL token.
+func (l *Lexer) newStringToken(tokenType token.Type, literal string, terminated bool, startLine, startColumn int) token.Token {
+	if !terminated {
+		tokenType = token.ILLEGAL
+	}
+	return l.NewTokenAt(tokenType, literal, startLine, startColumn)
+}
+
 func baseNextToken(l *Lexer) token.Token {
 	var tok token.Token
 
@@ -125,15 +134,18 @@ func baseNextToken(l *Lexer) token.Token {
 	case '"':
 		// Capture position BEFORE reading the string
 		startLine, startColumn := l.Line, l.Column
-		tok = l.NewTokenAt(token.STRING, l.readString('"'), startLine, startColumn)
+		literal, terminated := l.readString('"')
+		tok = l.newStringToken(token.STRING, literal, terminated, startLine, startColumn)
 	case '\'':
 		// Capture position BEFORE reading the string
 		startLine, startColumn := l.Line, l.Column
-		tok = l.NewTokenAt(token.STRING, l.readString('\''), startLine, startColumn)
+		literal, terminated := l.readString('\'')
+		tok = l.newStringToken(token.STRING, literal, terminated, startLine, startColumn)
 	case '`':
 		// Capture position BEFORE reading the raw string
 		startLine, startColumn := l.Line, l.Column
-		tok = l.NewTokenAt(token.RAW_STRING, l.readRawString(), startLine, startColumn)
+		literal, terminated := l.readRawString()
+		tok = l.newStringToken(token.RAW_STRING, literal, terminated, startLine, startColumn)
 	case 0:
 		if l.atEOF() {
 			tok = l.NewToken(token.EOF, "")
